@@ -4,6 +4,7 @@ package main
 // GLFW, GL and PortAudio are the pure-Go stand-ins of harness/stubs.
 
 import (
+	"math"
 	"bytes"
 	"context"
 	"io/ioutil"
@@ -23,6 +24,7 @@ type gbInst struct {
 	gb  *gameboy.Gameboy
 	ser *bytes.Buffer
 	win *glfw.Window // the stub window of this instance's display (nil without video)
+	pa  *portaudio.Stream // the stub stream of this instance's speakers (nil without audio)
 }
 
 var gbs = map[int]*gbInst{}
@@ -35,7 +37,10 @@ func gbNew(idx int, path string, ser, aud, vid bool) {
 		cfg.SerialWriter = inst.ser
 	}
 	glfw.Current = nil
+	portaudio.Last = nil
+	portaudio.SlowEvery = 7
 	inst.gb = gameboy.New(cfg)
+	inst.pa = portaudio.Last
 	inst.win = glfw.Current
 	gbs[idx] = inst
 }
@@ -160,6 +165,29 @@ func init() {
 	// through the callback that gameboy.New installed (Controller.ButtonAction + CPU.OnInput); no window: nothing happens
 	register("gb.key", func(a []string) {
 		gbs[ai(a, 1)].win.Fire(glfw.Key(ai(a, 2)), glfw.Action(ai(a, 3)))
+	})
+	// gb.audio I: the samples delivered to the (slow) audio consumer so far, in whole callback buffers of 63 stereo pairs:
+	// count and digest of round(6400*sample); the consumer is waited for, so the line does not depend on scheduling
+	register("gb.audio", func(a []string) {
+		g := gbs[ai(a, 1)]
+		if g.pa == nil {
+			emit("audio none")
+			return
+		}
+		xs := g.pa.Quiesce()
+		h := uint64(7)
+		bad := 0
+		for _, x := range xs {
+			f := float64(x)
+			v := uint64(0)
+			if math.IsNaN(f) || math.IsInf(f, 0) || f < 0 || f >= 1 {
+				bad++
+			} else {
+				v = uint64(math.Round(f * 6400))
+			}
+			h = ((h * 1000003) ^ v) & 0xFFFFFFFFFF
+		}
+		emit("audio %d %d bad=%d", len(xs)/2, h, bad)
 	})
 	register("gb.set", func(a []string) {
 		gbs[ai(a, 1)].gb.VCPU().VSetRegs(cpu.VRegs{A: uint8(ai(a, 2)), B: uint8(ai(a, 3)), C: uint8(ai(a, 4)), D: uint8(ai(a, 5)),
